@@ -311,6 +311,15 @@ def get_switched_peak_indices(asig):
     return get_switched_peak_array_indices(values)
 
 
+def _argmax_abs_w_sign(peak_values_set, last):
+    """Largest absolute value among the values that have the sign of the half cycle (sign of `last`)"""
+    abs_vals = np.abs(peak_values_set)
+    same_sign = np.array(peak_values_set) * last > 0
+    if same_sign.any():  # with tol > 0 a half cycle can contain small excursions of the other sign
+        abs_vals = np.where(same_sign, abs_vals, -1.0)
+    return np.argmax(abs_vals)
+
+
 def get_switched_peak_array_indices(values, tol=0.0):
     """
     Find the indices for largest peak between each zero crossing
@@ -336,7 +345,7 @@ def get_switched_peak_array_indices(values, tol=0.0):
         sgn = np.sign(last)
         adj_val = peak_values[i] + tol * sgn  # if val is -ve then this will make value more +ve
         if adj_val * last <= 0:  # only add index if sign changes (negative number)
-            i_max_set = np.argmax(np.abs(peak_values_set))
+            i_max_set = _argmax_abs_w_sign(peak_values_set, last)
             new_peak_indices.append(peak_indices_set[i_max_set])
 
             last = peak_values[i]
@@ -347,7 +356,7 @@ def get_switched_peak_array_indices(values, tol=0.0):
         peak_indices_set.append(i)
 
     if len(peak_values_set):  # add last
-        i_max_set = np.argmax(np.abs(peak_values_set))
+        i_max_set = _argmax_abs_w_sign(peak_values_set, last)
         new_peak_indices.append(peak_indices_set[i_max_set])
         peak_values_set.append(peak_values[i])
         peak_indices_set.append(i)
